@@ -25,6 +25,7 @@ import (
 	"net/http"
 	"os"
 	"sort"
+	"strconv"
 	"strings"
 	"sync"
 	"testing"
@@ -56,7 +57,14 @@ func c36Handler(w http.ResponseWriter, r *http.Request) {
 	if prog == "" {
 		return
 	}
-	for _, op := range strings.Split(prog, ",") {
+	// body tokens: "a" / "b" literally, or (histories) request-specific bytes of the requested size
+	tokA, tokB := []byte("a"), []byte("b")
+	if tag := r.Header.Get("X-Tag"); tag != "" {
+		n, _ := strconv.Atoi(r.Header.Get("X-Size"))
+		tokA, tokB = c36Token(tag, "a", n), c36Token(tag, "b", n)
+	}
+	variant, _ := strconv.Atoi(r.Header.Get("X-Var"))
+	for pos, op := range strings.Split(prog, ",") {
 		switch op {
 		case "wh103":
 			w.WriteHeader(103)
@@ -75,9 +83,18 @@ func c36Handler(w http.ResponseWriter, r *http.Request) {
 		case "ct":
 			w.Header().Set("Content-Type", c36CT)
 		case "wa":
-			w.Write([]byte("a"))
+			w.Write(tokA)
 		case "wb":
-			w.Write([]byte("b"))
+			w.Write(tokB)
+		case "we": // an empty write, in one of its spellings
+			switch (variant + pos) % 3 {
+			case 0:
+				w.Write(nil)
+			case 1:
+				w.Write([]byte{})
+			default:
+				io.WriteString(w, "")
+			}
 		case "fl":
 			if f, ok := w.(http.Flusher); ok {
 				f.Flush()
@@ -90,6 +107,16 @@ func c36Handler(w http.ResponseWriter, r *http.Request) {
 	}
 }
 
+// c36Token: the bytes a body token stands for in a tagged request (text, so that sniffing is stable)
+func c36Token(tag, tok string, n int) []byte {
+	unit := []byte("[" + tag + "/" + tok + "]")
+	b := make([]byte, 0, n+len(unit))
+	for len(b) < n {
+		b = append(b, unit...)
+	}
+	return b[:n]
+}
+
 type c36Obs struct {
 	status  int // 0: the connection ended without a final (non-1xx) response
 	info    []int
@@ -100,7 +127,11 @@ type c36Obs struct {
 }
 
 func (o c36Obs) String() string {
-	return fmt.Sprintf("{status %d, X-A %q, Content-Type %q, body %q, 1xx %v%s}", o.status, o.xa, o.ct, o.body, o.info,
+	body := o.body
+	if len(body) > 60 {
+		body = fmt.Sprintf("%s...(%d bytes)", body[:60], len(body))
+	}
+	return fmt.Sprintf("{status %d, X-A %q, Content-Type %q, body %q, 1xx %v%s}", o.status, o.xa, o.ct, body, o.info,
 		map[bool]string{true: ", " + o.problem, false: ""}[o.problem != ""])
 }
 
@@ -151,18 +182,24 @@ func c36Roundtrip(ln c36Dialer, raw string) (c36Obs, error) {
 	}
 	all, err := io.ReadAll(c)
 	if err != nil {
-		return c36Obs{}, fmt.Errorf("reading the response stream: %w (got %q)", err, all)
+		return c36Obs{}, fmt.Errorf("reading the response stream: %w (got %d bytes)", err, len(all))
 	}
+	return c36ParseStream(all), nil
+}
+
+// c36ParseStream parses everything a server wrote for one request: informational responses, then
+// the final one.
+func c36ParseStream(all []byte) c36Obs {
 	var o c36Obs
 	br := bufio.NewReader(bytes.NewReader(all))
 	for {
 		if _, err := br.Peek(1); err != nil {
-			return o, nil // stream over without a final response
+			return o // stream over without a final response
 		}
 		resp, err := http.ReadResponse(br, &http.Request{Method: "GET"})
 		if err != nil {
 			o.problem = "unparsable response: " + err.Error()
-			return o, nil
+			return o
 		}
 		if resp.StatusCode >= 100 && resp.StatusCode < 200 && resp.StatusCode != 101 {
 			o.info = append(o.info, resp.StatusCode)
@@ -177,9 +214,9 @@ func c36Roundtrip(ln c36Dialer, raw string) (c36Obs, error) {
 		o.ct = resp.Header.Get("Content-Type")
 		o.body = string(body)
 		if rest, _ := io.ReadAll(br); len(rest) > 0 {
-			o.problem = fmt.Sprintf("%d bytes after the final response: %q", len(rest), rest)
+			o.problem = fmt.Sprintf("%d bytes after the final response", len(rest))
 		}
-		return o, nil
+		return o
 	}
 }
 
@@ -218,7 +255,7 @@ func c36Labels(prog []string) string {
 			} else {
 				info = true
 			}
-		case "wh200", "wh204", "wh404", "wh500", "wa", "wb", "fl":
+		case "wh200", "wh204", "wh404", "wh500", "wa", "wb", "we", "fl":
 			committed = true
 		case "xa1", "xa2", "ct":
 			if committed {
@@ -287,7 +324,7 @@ func TestVerifC36Programs(t *testing.T) {
 		if specBad > 5 {
 			return
 		}
-		raw := "GET /c36 HTTP/1.1\r\nHost: c36.example\r\nX-Prog: " + strings.Join(b.Prog, ",") + "\r\nConnection: close\r\n\r\n"
+		raw := fmt.Sprintf("GET /c36 HTTP/1.1\r\nHost: c36.example\r\nX-Prog: %s\r\nX-Var: %d\r\nConnection: close\r\n\r\n", strings.Join(b.Prog, ","), evals%3)
 		std, err := c36Roundtrip(srv.lnStd, raw)
 		if err != nil {
 			vfInfra("net/http round trip: " + err.Error())
@@ -510,4 +547,169 @@ func TestVerifC36Requests(t *testing.T) {
 		}
 	})
 	vfStat(evals, nontriv, vfRec{"requests": evals})
+}
+
+// ---------------------------------------------------------------------------------------
+// TestVerifC36Histories (B1, specs/util/HTTPAdaptorHist.tla): every schedule of serve / read events
+// of K calls through ONE adaptor handler, with every assignment of body size classes around the
+// adaptor's 32 KiB pooled buffer.  "serve i" calls the fasthttp handler returned by
+// NewFastHTTPHandler on call i's own RequestCtx (the handler returns: response i is fixed),
+// "read i" serialises that response -- other calls are served and read in between, as another
+// connection or a middleware would do.  The handler program of every call is drawn (seeded) from
+// HTTPWriterGen's programs; every call has its own body bytes.  Each response is compared with
+// ITS OWN reference: what net/http sends for the same program and request.
+
+type c36Sched struct {
+	K     int      `json:"k"`
+	Size  []string `json:"size"`
+	Sched []struct {
+		Ev string `json:"ev"`
+		I  int    `json:"i"`
+	} `json:"sched"`
+}
+
+func TestVerifC36Histories(t *testing.T) {
+	vfOpen(t)
+	defer vfDone()
+	rng := vfRand()
+	var progs, writing [][]string
+	vfEachLine(t, "", func(line []byte) {
+		var b c36Beh
+		if json.Unmarshal(line, &b) == nil && len(b.Prog) > 0 {
+			progs = append(progs, b.Prog)
+			for _, op := range b.Prog {
+				if op == "wa" || op == "wb" {
+					writing = append(writing, b.Prog)
+					break
+				}
+			}
+		}
+	})
+	if len(progs) == 0 || len(writing) == 0 {
+		vfInfra("no handler programs for the histories")
+		return
+	}
+	srv := c36Start(http.HandlerFunc(c36Handler)) // only the net/http side is used: the references
+	defer srv.Stop()
+	h := NewFastHTTPHandler(http.HandlerFunc(c36Handler))
+	draws := vfEnvInt("VERIF_C36_DRAWS", 2)
+	sizeOf := map[string]int{"tiny": 1, "below32k": 20000, "above32k": 40000}
+	evals, nontriv, ncall := 0, 0, 0
+	vfEachLine(t, os.Getenv("VERIF_IN3"), func(line []byte) {
+		var sc c36Sched
+		if err := json.Unmarshal(line, &sc); err != nil || sc.K == 0 {
+			vfInfra("bad schedule line")
+			return
+		}
+		overlapped := false
+		open := 0
+		for _, e := range sc.Sched {
+			if e.Ev == "serve" {
+				open++
+				if open > 1 {
+					overlapped = true
+				}
+			} else {
+				open--
+			}
+		}
+		for d := 0; d < draws; d++ {
+			evals++
+			if overlapped {
+				nontriv++
+			}
+			type call struct {
+				prog []string
+				ctx  fasthttp.RequestCtx
+				ref  c36Obs
+				hdr  [][2]string
+			}
+			calls := make([]*call, sc.K+1)
+			for i := 1; i <= sc.K; i++ {
+				c := &call{}
+				if rng.Intn(10) < 8 {
+					c.prog = writing[rng.Intn(len(writing))]
+				} else {
+					c.prog = progs[rng.Intn(len(progs))]
+				}
+				ncall++
+				n := sizeOf[sc.Size[i-1]]
+				c.hdr = [][2]string{{"X-Prog", strings.Join(c.prog, ",")}, {"X-Tag", fmt.Sprintf("h%d.%d", evals, i)},
+					{"X-Size", strconv.Itoa(n)}, {"X-Var", strconv.Itoa(rng.Intn(3))}}
+				raw := "GET /c36h HTTP/1.1\r\nHost: c36.example\r\nConnection: close\r\n"
+				var req fasthttp.Request
+				req.Header.SetMethod("GET")
+				req.SetRequestURI("/c36h")
+				req.Header.SetHost("c36.example")
+				for _, kv := range c.hdr {
+					raw += kv[0] + ": " + kv[1] + "\r\n"
+					req.Header.Set(kv[0], kv[1])
+				}
+				ref, err := c36Roundtrip(srv.lnStd, raw+"\r\n")
+				if err != nil {
+					vfInfra("net/http reference: " + err.Error())
+					return
+				}
+				c.ref = ref
+				c.ctx.Init(&req, nil, c36NullLogger{})
+				calls[i] = c
+			}
+			result := make(chan [2]string, 1)
+			go func() {
+				for _, e := range sc.Sched {
+					c := calls[e.I]
+					if e.Ev == "serve" {
+						h(&c.ctx)
+						continue
+					}
+					var buf bytes.Buffer
+					bw := bufio.NewWriter(&buf)
+					if err := c.ctx.Response.Write(bw); err != nil {
+						result <- [2]string{"history:serialise-error", fmt.Sprintf("call %d (program %v): writing the response failed: %v", e.I, c.prog, err)}
+						return
+					}
+					bw.Flush()
+					got := c36ParseStream(buf.Bytes())
+					var diff []string
+					if got.problem != "" {
+						diff = append(diff, "stream")
+					}
+					if got.status != c.ref.status {
+						diff = append(diff, "status")
+					}
+					if !c36Eq(got.xa, c.ref.xa) {
+						diff = append(diff, "x-a")
+					}
+					if c.ref.ct != "" && got.ct != c.ref.ct {
+						diff = append(diff, "content-type")
+					}
+					if got.body != c.ref.body {
+						diff = append(diff, "body")
+					}
+					if len(diff) > 0 {
+						other := ""
+						for j := 1; j <= sc.K; j++ {
+							if j != e.I && strings.Contains(got.body, fmt.Sprintf("[h%d.%d/", evals, j)) {
+								other = fmt.Sprintf("; the body contains bytes of call %d", j)
+							}
+						}
+						result <- [2]string{fmt.Sprintf("history:%s|overlapped=%v|size=%s", strings.Join(diff, "+"), overlapped, sc.Size[e.I-1]),
+							fmt.Sprintf("schedule %v sizes %v: call %d (program %v) through the adaptor gives %v, net/http gives %v%s", sc.Sched, sc.Size, e.I, c.prog, got, c.ref, other)}
+						return
+					}
+				}
+				result <- [2]string{"", ""}
+			}()
+			select {
+			case r := <-result:
+				if r[0] != "" {
+					c36Viol(r[0], r[1], vfRec{"schedule": sc.Sched, "sizes": sc.Size})
+				}
+			case <-time.After(120 * time.Second):
+				c36Viol("history:hang", fmt.Sprintf("schedule %v sizes %v did not complete within 120 s", sc.Sched, sc.Size), vfRec{"schedule": sc.Sched, "sizes": sc.Size})
+				return
+			}
+		}
+	})
+	vfStat(evals, nontriv, vfRec{"histories": evals, "history_calls": ncall})
 }
